@@ -332,6 +332,7 @@ class Kernel:
         self.stalled = False
         self.stall_reason = None
         self.budget_exceeded = False
+        self.budget_reason = None
         self.max_delay = 0.0
         self.distinct_switch_points = set()
         self.current_msg = None
@@ -534,6 +535,7 @@ class Kernel:
         self.steps += 1
         if self.steps > self.max_steps or self.clock.now > self.max_vt or (self.wall_deadline is not None and self.steps % 500 == 0 and _time.monotonic() > self.wall_deadline):
             self.budget_exceeded = True
+            self.budget_reason = "steps" if self.steps > self.max_steps else ("virtual-time" if self.clock.now > self.max_vt else "wall-clock")
             raise Budget(f"steps={self.steps} vt={self.clock.now}")
         if kind == "deliver":
             self._deliver(*data)
